@@ -1,6 +1,6 @@
 """Run the real `lha` tool in a private directory tree and describe the resulting tree in the
 same canonical form as the Lean model's `xrun` op (vlib: C06, C10)."""
-import os, stat, shutil, subprocess, tempfile, time
+import os, time, stat, shutil, subprocess, tempfile
 from vlib import core
 from vlib.lhaenc import crc16
 
@@ -58,7 +58,7 @@ def describe(base, t_start, skip=(b"a.lzh",)):
             p = os.path.join(d, name)
             st = os.lstat(p)
             key = "/" + "/".join(hexs(c) for c in comps + [name])
-            mt = "NOW" if st.st_mtime >= t_start - 1 else str(int(st.st_mtime))
+            mt = "NOW" if t_start - 1 <= st.st_mtime <= time.time() + 2 else str(int(st.st_mtime))   # recorded times may lie in the future
             if stat.S_ISLNK(st.st_mode):
                 items.append((key, "l" + hexs(os.readlink(p))))
             elif stat.S_ISDIR(st.st_mode):
